@@ -26,11 +26,23 @@ Generator tree (program = one func.func @f, <= 2 arguments; constants are not co
   cfg      a fixed family of cf.cond_br / cf.switch / scf.if / scf.for / scf.while / scf.execute_region shapes around
            such ops (constant and variable conditions, identical branches, identical successors, opaque
            test.op effects inside branches)
+  cfggen   the GENERATED cf CFG family of mc/cfgfam.py (see its docstring for the exact grammar): every forward-edge
+           CFG of 3..5 blocks -- entry block ending in cf.br / cf.cond_br / cf.switch (default + 1 or 2 cases), middle
+           blocks with 0..2 block arguments that are either pass-through blocks (ONLY a cf.br, forwarding each of their
+           arguments 0/1/2 times, or %a) or use blocks (a small computation over their arguments), one exit block --
+           x every assignment of %a / %b to the entry's successor operands (the same successor may be targeted twice
+           with different operands) x 0/1/2 extra uses of every pass-through block argument by the use blocks that
+           block dominates x selector variants (function argument, constant hitting each case / the default).
+           Run through canonicalize (thorough: also cse and the pipeline) and executed on the family's own input box:
+           condition both ways / every switch case value and two selectors that take the default, x 3 x 3 data
+           values.  Rows and bounds of both tiers: cfggen_plan().
   top      straight-line arith ops directly in the module body feeding an opaque "test.op" (the only place
            test-specialised-constant-folding looks at); compared through the effect log.
 
 Signatures
-  wrong values      C14|<pass>|<op>[|<predicate>]|<operand pattern>|<wrong-result|wrong-effects|introduces-poison|does-not-verify|use-not-dominated>
+  wrong values      C14|<pass>|<op>[|<predicate>]|<operand pattern>|<wrong-result|wrong-effects|introduces-poison|does-not-verify|use-not-dominated|use-of-erased-value>
+                    (use-of-erased-value: an op of the pass output uses a value whose defining op / block is no longer
+                    part of the module -- checked structurally before the verifier and the executions)
   pass raised       C14|<pass>|raises|<ExceptionClass>|<op>      (<op> = the op the rewrite pattern was applied to)
 For multi-op programs the blamed <op> is found by re-running the pass on every contiguous window of the
 program, smallest first, with the results of earlier ops turned into fresh arguments and -- when that does
@@ -38,12 +50,15 @@ not reproduce the failure -- into the constants they evaluate to on the failing 
 that needs op A to have been folded first is op B's (const,const) finding): a chain re-finds the single-op
 signature when one op alone already fails and is reported as "opA->opB" only when it takes both.  A failure
 of the pipeline that one of its passes shows on its own (on the program or on the blamed window) is recorded
-under that pass.  Control-flow templates are labelled <construct>|<template variant>.
+under that pass.  Control-flow templates are labelled <construct>|<template variant>; programs of the generated cf family
+<entry terminator>|generated-cfg:<selector kind>[:repeated-successor][:to-pass-through][:pass-through-arg-used-in-dominated-block]
+(the shape class of the CFG, no counts or operands).
 """
 from __future__ import annotations
 
 import itertools
 
+from mc import cfgfam as F
 from mc import refsem as R
 from mc.pool import pmap
 from mc.stats import Stats
@@ -213,6 +228,8 @@ def render_op(rec, i: int) -> str:
 def render(rec) -> str:
     if rec[0] == "text":
         return rec[3]
+    if rec[0] == "cfggen":
+        return F.render(rec[3])
     _, top, args, cs, ops, rets = rec
     body = [f"%k{i} = arith.constant {lit(t, c)}" + ("" if t == "i1" else f" : {t}") for i, (t, c) in enumerate(cs)]
     body += [render_op(rec, i) for i in range(len(ops))]
@@ -352,6 +369,8 @@ class Prog:
         self._before: dict = {}
 
     def inputs(self, big: bool) -> list[tuple]:
+        if self.rec[0] == "cfggen":
+            return F.inputs(self.rec[3])  # the family's own input box (same in both tiers)
         ex8 = big and len(self.arg_types) == 1
         return list(itertools.product(*[input_values(t, big, ex8) for t in self.arg_types]))
 
@@ -454,9 +473,28 @@ def undominated_use(mod) -> str | None:
     return None
 
 
+def erased_use(mod) -> str | None:
+    """structural check, before anything is executed: every operand of every op of the module must be a value whose
+    definition (op or block) is still part of the module -- a rewrite that removes a block / op and leaves a user
+    behind fails here.  Returns a description of the first offending use."""
+    for op in mod.walk():
+        for i, v in enumerate(op.operands):
+            if type(v).__name__ == "ErasedSSAValue":
+                return f"operand {i} of {op.name} is an erased value"
+            owner = v.owner
+            hops = 0
+            while owner is not None and owner is not mod and hops < 64:
+                owner = owner.parent_op() if hasattr(owner, "parent_op") else None
+                hops += 1
+            if owner is not mod:
+                kind = "block argument of a block" if type(v).__name__ == "BlockArgument" else f"result of {getattr(v.owner, 'name', '?')}"
+                return f"operand {i} of {op.name} is a {kind} that is no longer in the module"
+    return None
+
+
 def run_pass(P: Prog, pass_name: str, big: bool, st: Stats | None = None) -> tuple[str, dict]:
-    """-> (verdict, detail); verdict in unchanged / same / no-defined-input / raises|<Exc> / does-not-verify /
-    wrong-result / wrong-effects / introduces-poison / use-not-dominated / oracle-unsupported"""
+    """-> (verdict, detail); verdict in unchanged / same / no-defined-input / raises|<Exc> / use-of-erased-value /
+    does-not-verify / wrong-result / wrong-effects / introduces-poison / use-not-dominated / oracle-unsupported"""
     x = X()
     m = P.mod.clone()
     try:
@@ -467,7 +505,13 @@ def run_pass(P: Prog, pass_name: str, big: bool, st: Stats | None = None) -> tup
         return f"raises|{type(e).__name__}", {"exception": f"{type(e).__name__}: {msg}", "tb_op": traceback_op(e)}
     if x["canon"]([m]) == P.key:
         return "unchanged", {}
-    after_text = str(m)
+    try:
+        after_text = str(m)
+    except Exception as e:  # noqa: BLE001 - the printer gave up on the pass output; the checks below say why
+        after_text = f"<unprintable: {type(e).__name__}>"
+    gone = erased_use(m)
+    if gone is not None:
+        return "use-of-erased-value", {"after": after_text, "error": gone}
     try:
         m.verify()
     except Exception as e:  # noqa: BLE001
@@ -501,7 +545,7 @@ def _res_json(r):
     return [[t, (hex(v) if isinstance(v, int) else repr(v))] for t, v in r]
 
 
-BAD = ("raises", "does-not-verify", "wrong-result", "wrong-effects", "introduces-poison", "use-not-dominated")
+BAD = ("raises", "use-of-erased-value", "does-not-verify", "wrong-result", "wrong-effects", "introduces-poison", "use-not-dominated")
 
 
 def is_bad(verdict: str) -> bool:
@@ -548,6 +592,8 @@ def signature(rec, pass_name: str, verdict: str, detail: dict, big: bool) -> str
     win = None
     if rec[0] == "text":
         label, pat = rec[4], rec[5]
+    elif rec[0] == "cfggen":
+        label, pat = F.label(rec[3])
     elif rec[0] == "pair":
         base = ("sl",) + tuple(rec[1:6])
         label, pat, win = blame(base, pass_name, verdict, big, max_size=1, at_args=detail.get("args")) or (rec[6], rec[7], None)
@@ -605,6 +651,7 @@ def check_program(st: Stats, rec, big: bool, passes=PASSES, sample: bool = False
             continue
         what = {"raises": f"{p} raised {detail.get('exception')} on a verified program",
                 "does-not-verify": f"the output of {p} does not verify: {detail.get('verify_error')}",
+                "use-of-erased-value": f"after {p} an op uses a value whose definition was removed: {detail.get('error')}",
                 "wrong-result": f"after {p} the program returns {detail.get('got')} on input {detail.get('args')}, MLIR semantics of the original give {detail.get('expected')}",
                 "wrong-effects": f"after {p} the effect log differs on input {detail.get('args')}",
                 "use-not-dominated": f"after {p} a value is used where its definition does not dominate it: {detail.get('error')}",
@@ -1250,6 +1297,9 @@ def tasks_for(quick: bool) -> list[tuple]:
     tasks.append(("loops", 1))
     for t in INT_TYPES:
         tasks.append(("top", t))
+    for n, tkind, max_args, max_extras, sels, shards in cfggen_plan(quick):
+        for k in range(shards):
+            tasks.append(("cfggen", n, tkind, max_args, max_extras, sels, k, shards))
     for i in range(len(chain_plan(quick))):
         tasks.append(("chain2", i))
     if not quick:
@@ -1259,9 +1309,32 @@ def tasks_for(quick: bool) -> list[tuple]:
     return tasks
 
 
+def cfggen_plan(quick: bool) -> list[tuple]:
+    """[(blocks n, entry terminator, max total block arguments, max extra uses per use block, selector variants, shards)]
+    of the generated cf CFG family (mc/cfgfam.py); every row is enumerated completely"""
+    if quick:
+        return [(3, "br", 3, 2, ("none",), 1), (3, "cond", 3, 2, ("arg",), 2), (3, "sw1", 2, 2, ("arg",), 1),
+                (3, "sw2", 2, 2, ("arg",), 2), (3, "cond", 2, 2, ("c1", "c0"), 1),
+                (4, "br", 2, 2, ("none",), 1), (4, "cond", 2, 2, ("arg",), 6), (4, "sw1", 2, 2, ("arg",), 6)]
+    return [(3, tk, 3, 2, F.SELS[tk], 16 if tk == "sw2" else 4) for tk in F.TKINDS] + [
+        (4, "br", 3, 2, ("none",), 4), (4, "cond", 3, 2, ("arg",), 16), (4, "cond", 2, 2, ("c1", "c0"), 8),
+        (4, "sw1", 3, 2, ("arg",), 16), (4, "sw1", 2, 2, ("c0", "c7"), 8), (4, "sw2", 2, 2, ("arg", "c-1"), 32),
+        (5, "br", 2, 2, ("none",), 4), (5, "cond", 2, 2, ("arg",), 24), (5, "sw1", 2, 2, ("arg",), 24)]
+
+
+def gen_cfggen(n: int, tkind: str, max_args: int, max_extras: int, sels, k: int, shards: int):
+    for spec in F.programs(n, tkind, max_args, max_extras, sels=tuple(sels), shard=(k, shards)):
+        yield ("cfggen", False, F.arg_types(spec), spec)
+
+
+CFGGEN_PASSES = ("canonicalize", "cse", "canonicalize,cse,canonicalize")
+
+
 def programs_of(task: tuple, quick: bool):
     fam = task[0]
     full = 2
+    if fam == "cfggen":
+        return gen_cfggen(*task[1:])
     if fam == "single-binary":
         return gen_single_binary(binary_sigs(task[1])[task[2]], full)
     if fam == "single-select":
@@ -1300,7 +1373,10 @@ def _shard(arg) -> Stats:
     k = 0
     for rec in programs_of(task, quick):
         k += 1
-        check_program(st, rec, big, sample=(k + seed) % 997 == 1)
+        if fam == "cfggen":  # control flow only: the constant-folding passes have nothing to do here
+            check_program(st, rec, big, passes=CFGGEN_PASSES[:1] if quick else CFGGEN_PASSES, sample=(k + seed) % 997 == 1)
+        else:
+            check_program(st, rec, big, sample=(k + seed) % 997 == 1)
         st.outcomes[f"family:{fam}"] += 1
     st.bump(f"programs_{fam}", k)
     return st
@@ -1330,12 +1406,26 @@ def run(ctx):
                                 "i8 (single-argument programs, thorough)": 256 if not quick else len(input_values("i8", False)),
                                 "f32/f64": len(input_values("f32", not quick))},
         "index_width": 64,
+        "generated_cf_cfgs": {
+            "grammar": "mc/cfgfam.py: forward-edge CFGs, entry br / cond_br / switch(default + 1..2 cases), middle blocks pass-through "
+                       "(only cf.br) or use (computation), 0..2 block arguments each, single exit block, successor operands of the "
+                       "entry from {%a, %b}, of a pass-through block from its own arguments and %a; every pass-through block "
+                       "argument gets 0/1/2 extra uses in every use block it dominates",
+            "rows": [{"blocks": n, "entry": tk, "max_total_block_arguments": a, "max_extra_uses_per_block": e, "selectors": list(sels)}
+                     for n, tk, a, e, sels, _ in cfggen_plan(quick)],
+            "passes": list(CFGGEN_PASSES[:1] if quick else CFGGEN_PASSES),
+            "input_box": {"cond": list(F.SEL_VALUES["cond"]), "switch1": list(F.SEL_VALUES["sw1"]), "switch2": list(F.SEL_VALUES["sw2"]),
+                          "a": list(F.A_VALUES), "b": list(F.B_VALUES)},
+        },
     }
     ctx.rule = ("generator tree: family -> op signature -> operand pattern -> constants; states = programs accepted by the xDSL "
                 "verifier, transitions = executions = (program, pass) applications of the real pass classes, evaluations = "
                 "(program, pass, input) comparisons of refsem(before) with refsem(after) on inputs where before is defined; "
                 "a program is non-trivial when at least one pass changed its IR (canonical form differs) and the changed "
-                "IR was compared with the original on at least one defined input")
+                "IR was compared with the original on at least one defined input; the generated cf CFG family is enumerated "
+                "row by row (blocks, entry terminator, block-argument budget) -> CFG structure (argument counts, block kinds, "
+                "branch targets; unreachable blocks and CFGs without a pass-through block are not programs of the family) -> "
+                "successor operands x extra uses x selector variant, every combination once")
     ctx.assumptions = ["mc/refsem.py implements the MLIR semantics (self test: python -m mc.refsem)",
                        "index is 64 bits wide",
                        "fast-math / reassociation flags are not generated (refsem gives them strict IEEE semantics)",
